@@ -137,7 +137,9 @@ def worker_explore(spec):
                 # an oracle may hand over a more explicit case that reproduces the same violation (e.g. an observed
                 # address-dependent order pinned as a forced order)
                 rc = v.pop("replay_case", None)
-                out["violations"].append({"index": i, "case": rc or case, "violation": v})
+                # the interpreter's hash seed is part of the schedule: a replay runs under the same one
+                out["violations"].append({"index": i, "case": rc or case, "violation": v,
+                                          "hashseed": os.environ.get("PYTHONHASHSEED")})
     out["nontrivial"] = sorted(nontrivial)
     out["distinct"] = dict((k, sorted(v)) for k, v in distinct.items())
     out["violation_counts"] = seen_classes
@@ -539,7 +541,8 @@ def _main(args, seed, scratch):
         if f:
             known_hit[f["id"]] = known_hit.get(f["id"], 0) + agg["violation_counts"].get(k, 0)
             continue
-        path, mini = minimise_and_publish(check, it, seed, scratch)
+        hs_found = [int(it["hashseed"])] if str(it.get("hashseed") or "").isdigit() else None
+        path, mini = minimise_and_publish(check, it, seed, scratch, hashseeds=hs_found)
         f = match_finding(findings, prop, mini["violation"])
         if f:
             known_hit[f["id"]] = known_hit.get(f["id"], 0) + agg["violation_counts"].get(k, 0)
